@@ -410,7 +410,7 @@ def plan(tier):
     else:
         n, bufs, ks, faults = 24, (1, 2, 3, 5, 7, 16, 4096), (0, 1, 2, 3, 5, 7, 24, 30), 3
     src = bytes(range(1, n + 1))
-    line_src = b"a\rb\nc\r\nd\r\n" if tier == "quick" else b"a\rb\nc\r\n\r\nde\r\n\r\r\nf"
+    line_src = b"a\rb\nc\r\nd\r\r\ne\r\n" if tier == "quick" else b"a\rb\nc\r\n\r\nde\r\n\r\r\nf\n\r\r\r\ng"
     for bs in bufs:
         work.append(("bfs", {"name": f"bytes n={n} bufsize={bs}", "source": src, "bufsize": bs,
                              "ks": list(ks), "faults": faults, "lines": False}))
